@@ -1,2 +1,97 @@
--- Driver stub for C15 (replaced when the property's model driver is written).
-def main : IO Unit := IO.println "C15: no driver yet"
+import TsVerif.Common.IO
+import TsVerif.C15.Judge
+/-!
+Driver for C15.  Per grammar pair (A = unoptimised table, B = MergeStates table):
+`P <gid> sim=<ok|FAIL diag> statesA=.. statesB=.. closedA=.. closedB=.. det=<ok|FAIL>`; per string:
+`<cid> judge=<ok|FAIL ..> corr=<ok|skip|msg> drvA=.. drvB=..`.
+-/
+open TsVerif TsVerif.C03 TsVerif.C15
+
+structure PState where
+  gid : String := ""
+  kind : String := ""
+  linesA : Array String := #[]
+  linesB : Array String := #[]
+  det : List String := []
+  A : Table := {}
+  B : Table := {}
+  simOK : Bool := false
+  mode : Nat := 0
+
+def detJudge (ws : List String) : Bool :=
+  -- det opt1 <parser hashes> <types hashes> opt0 <parser hashes> <types hashes>
+  match ws with
+  | ["opt1", p1, t1, "opt0", p0, t0] =>
+    [p1, t1, p0, t0].all fun l => allEqual (l.splitOn ",") && (l.splitOn ",").length ≥ 4
+  | _ => false
+
+def onReady (s : PState) : PState × String :=
+  let A := Table.ofLines s.linesA.toList
+  let B := Table.ofLines s.linesB.toList
+  let sim := findSim A B
+  let diag := match sim with
+    | some _ => "ok"
+    | none =>
+      match findSimLoop A B (2 * A.stateCount * (A.symbolCount + 4) + 1000) [(1, 1)] [] with
+      | some f => "FAIL " ++ simDiag A B f
+      | none => "FAIL lock-step exploration found two different images for one state"
+  let det := detJudge s.det
+  ({ s with A := A, B := B, simOK := sim.isSome },
+   s!"P {s.gid} kind={s.kind} statesA={A.stateCount} statesB={B.stateCount} closedA={tableClosed A} closedB={tableClosed B} det={if det then "ok" else "FAIL"} mapped={(sim.map List.length).getD 0} sim={diag}")
+
+def natList (s : String) : List Nat := if s == "-" || s == "" then [] else (s.splitOn ",").map natOf'
+
+def runCase (s : PState) (cid : String) (ea eb same : Bool) (ty : String) (lst : String) : String :=
+  let j := agree ea eb same
+  let judge := if j then "ok" else
+    if ea != eb then s!"FAIL has_error-differs(unoptimised={ea},optimised={eb})" else "FAIL trees-differ"
+  if ty != "T" then s!"{cid} judge={judge} corr=skip drvA=na drvB=na" else
+  let toks := natList lst
+  let ra := run s.A toks
+  let rb := run s.B toks
+  let thm := match outcomeTree ra with
+    | some ta => (match outcomeTree rb with
+      | some tb => if ta == tb then "ok" else "model-trees-differ"
+      | none => if s.simOK then "sim_preserves-instance-violated" else "model-B-does-not-accept")
+    | none => "ok"
+  let c1 := match ra with
+    | .accepted _ => if ea then "A:model-accepts-real-rejects" else "ok"
+    | .rejected _ => if ea then "ok" else "A:model-rejects-real-accepts"
+    | _ => "skip"
+  let c2 := match rb with
+    | .accepted _ => if eb then "B:model-accepts-real-rejects" else "ok"
+    | .rejected _ => if eb then "ok" else "B:model-rejects-real-accepts"
+    | _ => "skip"
+  let corr := if thm != "ok" then thm else if c1 != "ok" && c1 != "skip" then c1 else if c2 != "ok" && c2 != "skip" then c2
+    else if c1 == "skip" && c2 == "skip" then "skip" else "ok"
+  s!"{cid} judge={judge} corr={corr} drvA={drvName ra} drvB={drvName rb}"
+where
+  drvName : Outcome → String
+    | .accepted _ => "acc"
+    | .rejected _ => "rej"
+    | .glr => "glr"
+    | .fault f => s!"fault:{repr f}"
+    | .fuelOut => "fuel"
+
+def step (s : PState) (line : String) : IO PState := do
+  if s.mode == 1 then
+    if line == "end" then return { s with mode := 0 } else return { s with linesA := s.linesA.push line }
+  if s.mode == 2 then
+    if line == "end" then return { s with mode := 0 } else return { s with linesB := s.linesB.push line }
+  match line.splitOn " " with
+  | ["pair", gid, kind] => return { gid := gid, kind := kind }
+  | ["tableA"] => return { s with mode := 1 }
+  | ["tableB"] => return { s with mode := 2 }
+  | "det" :: ws => return { s with det := ws }
+  | ["ready"] =>
+    let (s', msg) := onReady s
+    IO.println msg
+    return s'
+  | ["case", cid, ea, eb, same, ty, lst, _spec] =>
+    IO.println (runCase s cid (ea == "1") (eb == "1") (same == "1") ty lst)
+    return s
+  | "stats" :: rest => IO.println ("S " ++ " ".intercalate rest); return s
+  | _ => return s
+
+def main : IO Unit := do
+  let _ ← foldLines (← IO.getStdin) ({} : PState) step
